@@ -50,6 +50,10 @@ class ExcelWrapper:
     def get_active_sheet_name(self):
         """"""
 
+    def is_empty_text_result(self, address):
+        """Is the result stored for the formula cell the empty text?"""
+        return False
+
     def get_formula_from_range(self, address):
         if not is_address(address):
             address = AddressRange(address)
@@ -377,6 +381,11 @@ class ExcelOpxWrapper(ExcelWrapper):
                 return _OpxCell(cells, cells_dataonly, address)
             else:
                 return _OpxRange(cells, cells_dataonly, address)
+
+    def is_empty_text_result(self, address):
+        # an empty text result is stored as <v></v>, which is read as None
+        cell = self.workbook_dataonly[address.sheet][address.coordinate]
+        return cell.value is None and cell.data_type == 'str'
 
     def get_used_range(self):
         return self.workbook.active.iter_rows()
